@@ -36,7 +36,7 @@ def units(tier):
           "one one-shot iterator of length 0..7 passed 2..3 times, 1<=c<=8"),
         H("C03", M, "check_map_odd_values", t,
           [PE + "_get_chunks", PE + "_process_chunk", PE + "_chain_from_iterable_of_lists"],
-          "<=4 results each an exception instance / None / a falsy value / an int, 1<=c<=5"),
+          "<=3 results each an exception instance (ValueError, StopIteration) / None / 0 / an int, 1<=c<=4"),
         H("C03", M, "check_real_map", t, [PE + "ProcessPoolExecutor.map", PE + "_get_chunks", PE + "_process_chunk", PE + "_chain_from_iterable_of_lists"],
           "real map() on an executor with synchronous submit: iterable lengths 0..5 x 0..5, chunksize 1..6, max_workers 1..7 (contents fixed: map never looks at them)"),
         H("C03", M, "check_real_map_bad_chunksize", t, [PE + "ProcessPoolExecutor.map"], "chunksize -2..0 raises ValueError"),
